@@ -14,9 +14,9 @@ def mcand (T : Table) (s : MState) : Option Alias :=
     eligible T ((markLc (s.rest.take (skipLen s.rest))).reverse ++ s.pre) c0 (lexTok (c0 :: tl)).kind
       (trans s.st (lexTok (c0 :: tl)).kind).sub
 
-/-- Same text, same grammar position, same tokens read. -/
+/-- Same text, same grammar position, same tokens read, same pending here-documents. -/
 def Sim (s : MState) (h : HState) : Prop :=
-  h.rest = chars s.rest ∧ h.out = chars s.pre ∧ h.st = s.st ∧ h.toks = s.toks
+  h.rest = chars s.rest ∧ h.out = chars s.pre ∧ h.st = s.st ∧ h.toks = s.toks ∧ h.hd = s.hd
 
 /-- The two sides choose the same alias at every step of a lock-step run of `f` steps. -/
 def Agree (T : Table) : Nat → MState → HState → Prop
@@ -46,7 +46,7 @@ theorem chars_drop (l : List SChar) (k : Nat) : chars (l.drop k) = (chars l).dro
 theorem sim_step {T : Table} {s : MState} {h : HState} (hs : Sim s h) (hc : mcand T s = hcand T h) :
     (step T s = none ∧ hstep T h = none) ∨
     ∃ s' h', step T s = some s' ∧ hstep T h = some h' ∧ Sim s' h' := by
-  obtain ⟨hr, ho, hst, htk⟩ := hs
+  obtain ⟨hr, ho, hst, htk, hhd⟩ := hs
   have hk : skipLenC h.rest = skipLen s.rest := by rw [hr]; rfl
   have hd : h.rest.drop (skipLen s.rest) = chars (s.rest.drop (skipLen s.rest)) := by
     rw [hr, chars_drop]
@@ -73,7 +73,8 @@ theorem sim_step {T : Table} {s : MState} {h : HState} (hs : Sim s h) (hc : mcan
       have e1 : step T s = some
           { pre := (markLc (s.rest.take (skipLen s.rest))).reverse ++ s.pre,
             rest := spliceChars a c0 ++ tl.drop ((lexTok (c0 :: tl)).len - 1),
-            st := (trans s.st (lexTok (c0 :: tl)).kind).onSub, subs := s.subs + 1, toks := s.toks } := by
+            st := (trans s.st (lexTok (c0 :: tl)).kind).onSub, subs := s.subs + 1, toks := s.toks,
+            hd := s.hd } := by
         unfold step; simp only [hdrop, hel]
       have e2 : hstep T h = some
           { out := (h.rest.take (skipLen s.rest)).reverse ++ h.out,
@@ -82,39 +83,45 @@ theorem sim_step {T : Table} {s : MState} {h : HState} (hs : Sim s h) (hc : mcan
                         eb := endsBlank a.value } ::
               (activeAt h.active ((chars tl).length + 1)).map fun x =>
                 { x with endRem := min x.endRem ((chars tl).drop ((lexTok (c0 :: tl)).len - 1)).length },
-            st := (trans h.st (lexTok (c0 :: tl)).kind).onSub, toks := h.toks,
+            st := (trans h.st (lexTok (c0 :: tl)).kind).onSub, toks := h.toks, hd := h.hd,
             tb := flagRun h.active true (skipLen s.rest) h.tb h.rest } := by
         unfold hstep; simp only [hk, hd', ← hc, htok]
-      refine ⟨_, _, e1, e2, ?_, ?_, ?_, ?_⟩
+      refine ⟨_, _, e1, e2, ?_, ?_, ?_, ?_, ?_⟩
       · simp only [chars_append, chars_splice, chars_drop]
       · simp only [chars_append, chars_reverse, chars_markLc, htake, ho]
       · simp only [hst]
       · exact htk
+      · exact hhd
     | none =>
       rw [hel] at hc
+      have hsp : spanLenC h.hd h.st (c0.c :: chars tl) = spanLen s c0 tl := by
+        unfold spanLen; rw [hhd, hst]; rfl
       have e1 : step T s = some
-          { pre := (tl.take ((lexTok (c0 :: tl)).len - 1)).reverse ++ c0 ::
+          { pre := (tl.take (spanLen s c0 tl)).reverse ++ c0 ::
                      ((markLc (s.rest.take (skipLen s.rest))).reverse ++ s.pre),
-            rest := tl.drop ((lexTok (c0 :: tl)).len - 1),
+            rest := tl.drop (spanLen s c0 tl),
             st := (trans s.st (lexTok (c0 :: tl)).kind).onTake, subs := s.subs,
-            toks := (lexTok (c0 :: tl)).kind :: s.toks } := by
+            toks := tokOutC s.hd s.st (chars (c0 :: tl)) ++ s.toks,
+            hd := hdNextC s.hd s.st (chars (c0 :: tl)) } := by
         unfold step; simp only [hdrop, hel]
       have e2 : hstep T h = some
-          { out := ((chars tl).take ((lexTok (c0 :: tl)).len - 1)).reverse ++ c0.c ::
+          { out := ((chars tl).take (spanLen s c0 tl)).reverse ++ c0.c ::
                      ((h.rest.take (skipLen s.rest)).reverse ++ h.out),
-            rest := (chars tl).drop ((lexTok (c0 :: tl)).len - 1),
-            active := activeAt h.active ((chars tl).drop ((lexTok (c0 :: tl)).len - 1)).length,
+            rest := (chars tl).drop (spanLen s c0 tl),
+            active := activeAt h.active ((chars tl).drop (spanLen s c0 tl)).length,
             st := (trans h.st (lexTok (c0 :: tl)).kind).onTake,
-            toks := (lexTok (c0 :: tl)).kind :: h.toks,
-            tb := flagRun h.active false ((lexTok (c0 :: tl)).len - 1 + 1)
+            toks := tokOutC h.hd h.st (c0.c :: chars tl) ++ h.toks,
+            hd := hdNextC h.hd h.st (c0.c :: chars tl),
+            tb := flagRun h.active false (spanLen s c0 tl + 1)
                     (flagRun h.active true (skipLen s.rest) h.tb h.rest) (c0.c :: chars tl) } := by
-        unfold hstep; simp only [hk, hd', ← hc, htok]
-      refine ⟨_, _, e1, e2, ?_, ?_, ?_, ?_⟩
+        unfold hstep; simp only [hk, hd', ← hc, htok, hsp]
+      refine ⟨_, _, e1, e2, ?_, ?_, ?_, ?_, ?_⟩
       · simp only [chars_drop]
       · rw [htake, ho]
         simp [chars, markLc_chars, List.map_take]
       · simp only [hst]
-      · simp only [htk]
+      · rw [htk, hhd, hst]; rfl
+      · rw [hhd, hst]; rfl
 
 theorem sim_run {T : Table} (f : Nat) {s : MState} {h : HState} (hs : Sim s h) (ha : Agree T f s h) :
     Sim (run T f s).1 (hrun T f h) := by
